@@ -144,6 +144,9 @@ enum COp {
     SeekRead(usize, u64),
     /// tempfile semantics: a NamedTempFile in a directory, its mode, persistence after drop
     TempIn(usize),
+    /// symbolic links (relative target inside the tree) and lstat
+    Symlink(usize, usize),
+    Lstat(usize),
 }
 
 const PATHS: [&str; 14] = ["a", "b", "c", "d", "d/x", "d/y", "d/../a", "a/", "d/", "d/.", "e/f/g", "e/f", "e", "d/x/z"];
@@ -151,9 +154,18 @@ const PATHS: [&str; 14] = ["a", "b", "c", "d", "d/x", "d/y", "d/../a", "a/", "d/
 fn gen_prog(r: &mut Rng64, n: usize) -> Vec<COp> {
     let mut v = Vec::new();
     let base = 1_600_000_000i64;
+    // Programs come in two flavours: with symbolic links and plain names only,
+    // or without links and with the slash- and dot-terminated spellings too.
+    // (Links reached through such spellings are outside what the library or
+    // the harness ever does; the model does not claim conformance there.)
+    let with_links = r.below(2) == 0;
+    let pick = |r: &mut Rng64| {
+        let i = r.below(PATHS.len() as u64) as usize;
+        if with_links && (7..=9).contains(&i) { i - 7 } else { i }
+    };
     for _ in 0..n {
-        let p = r.below(PATHS.len() as u64) as usize;
-        let q = r.below(PATHS.len() as u64) as usize;
+        let p = pick(r);
+        let q = pick(r);
         let op = match r.below(20) {
             0 | 1 => COp::Create(p, vec![b'x'; r.below(40) as usize + 1]),
             2 => COp::CreateNew(p),
@@ -171,7 +183,10 @@ fn gen_prog(r: &mut Rng64, n: usize) -> Vec<COp> {
             16 => COp::HandleTimes(p, if r.below(2) == 0 { Some(base + r.below(1000) as i64) } else { None }, if r.below(2) == 0 { Some(base + r.below(1000) as i64) } else { None }),
             17 => COp::Stat(p),
             18 => COp::ReadDir(p),
-            _ => match r.below(5) {
+            _ => match r.below(8) {
+                5 | 6 if with_links => COp::Symlink(p, q),
+                5 | 6 => COp::Stat(p),
+                7 => COp::Lstat(p),
                 0 => COp::OpenRw(p),
                 1 => COp::Truncate(p),
                 2 => COp::RoWrite(p),
@@ -242,6 +257,21 @@ fn run_prog(root: &str, prog: &[COp]) -> Vec<String> {
                     Ok((got, pos, all.len(), end))
                 }))
             ),
+            COp::Symlink(t, l) => {
+                // relative target, resolved from the link's own directory
+                let mut depth = 0usize;
+                let comps: Vec<&str> = PATHS[*l].trim_end_matches('/').split('/').collect();
+                for c in &comps[..comps.len() - 1] {
+                    match *c {
+                        ".." => depth = depth.saturating_sub(1),
+                        "." | "" => {}
+                        _ => depth += 1,
+                    }
+                }
+                let target = format!("{}{}", "../".repeat(depth), PATHS[*t]);
+                format!("{:?}", errs(kismet_vfs::shim_fs::symlink(&target, path(*l))))
+            }
+            COp::Lstat(p) => format!("{:?}", errs(fs::symlink_metadata(path(*p)).map(|m| (m.is_dir(), m.file_type().is_symlink(), m.mode() & 0o777)))),
             COp::TempIn(p) => format!(
                 "{:?}",
                 errs(kismet_vfs::tempfile::NamedTempFile::new_in(path(*p)).and_then(|mut t| {
@@ -260,7 +290,9 @@ fn run_prog(root: &str, prog: &[COp]) -> Vec<String> {
         let mut state = Vec::new();
         for i in 0..PATHS.len() {
             if let Ok(m) = fs::symlink_metadata(path(i)) {
-                if m.is_dir() {
+                if m.file_type().is_symlink() {
+                    state.push(format!("{}:l", PATHS[i]));
+                } else if m.is_dir() {
                     state.push(format!("{}:d{:o}", PATHS[i], m.mode() & 0o777));
                 } else {
                     let explicit = m.mtime() < 1_650_000_000 && m.atime() < 1_650_000_000;
@@ -282,26 +314,37 @@ pub fn conformance(nprogs: u64) -> i32 {
         let mut r = Rng64::new(0xC0FFEE + i);
         let prog = gen_prog(&mut r, 20 + (i % 40) as usize);
         // real kernel, through the passthrough backend
-        let real_root = format!("{}/kismet-conf-{}-{}", base, std::process::id(), i);
-        let _ = std::fs::remove_dir_all(&real_root);
+        // nested, so that link targets climbing out of the root stay inside a
+        // private area that looks the same on both sides
+        let real_top = format!("{}/kismet-conf-{}-{}", base, std::process::id(), i);
+        let real_root = format!("{}/n1/n2/n3", real_top);
+        let _ = std::fs::remove_dir_all(&real_top);
         if std::fs::create_dir_all(&real_root).is_err() {
             println!("conformance: cannot create {}; skipped", real_root);
             return 0;
         }
         let real = run_prog(&real_root, &prog);
         // make everything removable again
-        let _ = std::process::Command::new("chmod").args(["-R", "u+rwx", &real_root]).status();
-        let _ = std::fs::remove_dir_all(&real_root);
+        let _ = std::process::Command::new("chmod").args(["-R", "u+rwx", &real_top]).status();
+        let _ = std::fs::remove_dir_all(&real_top);
         // SimFs
         let mut fs0 = SimFs::new(FsCfg { gran_ns: 1, atime: AtimePolicy::Relatime, enforce_perms: !is_root, dir_seed: i, readdir_batch: 3 }, 1_700_000_000_000_000_000);
-        fs0.mkdir_all("/root0");
+        fs0.mkdir_all("/top/n1/n2/n3");
         let sim = Sim::new(fs0, Tape::random(i), 1, 1);
         sim.lock().procs[0].umask = 0o022;
         sim.lock().keep_trace = false;
         k::attach(&sim, None, 0);
-        let simlog = run_prog("/root0", &prog);
+        let simlog = run_prog("/top/n1/n2/n3", &prog);
         k::detach();
         steps += prog.len();
+        if std::env::var("VERIF_CONF_ONLY").ok().and_then(|v| v.parse::<u64>().ok()) == Some(i) {
+            for (a, b) in real.iter().zip(simlog.iter()) {
+                println!("real: {}\nsim : {}", a, b);
+                if a != b {
+                    break;
+                }
+            }
+        }
         if real != simlog {
             bad += 1;
             if bad <= 3 {
